@@ -93,6 +93,7 @@ type Ctx struct {
 	symMu     sync.Mutex
 	symCache  []assertInfo
 	nEntry    int
+	defTerm   map[string]string
 	curBlock  int   // block of the verified function currently executing (-1: entry / global facts)
 	assertBlk []int // origin block of each assertion
 	reach     [][]bool
@@ -171,7 +172,19 @@ func (c *Ctx) def(prefix, sort, term string) string {
 	n := c.fresh(prefix)
 	c.declare(n, sort)
 	c.addAssert(eq(n, term), c.curBlock)
+	if c.defTerm == nil {
+		c.defTerm = map[string]string{}
+	}
+	c.defTerm[n] = term
 	return n
+}
+
+// resolve looks through a definition introduced by def.
+func (c *Ctx) resolve(t string) string {
+	if d, ok := c.defTerm[t]; ok {
+		return d
+	}
+	return t
 }
 
 // ---------------------------------------------------------------------
